@@ -246,6 +246,7 @@ where
                     log!("\n{}", "*** Parsing layout".paint(WARN_BOLD));
                     let current_state = context.state();
                     let current_span = context.span();
+                    let current_position = context.position();
                     context.set_state(S::default_layout().unwrap());
                     let p = layout_parser.parse_with_context(context, input);
                     log!("Layout is {p:?}");
@@ -261,6 +262,9 @@ where
                             continue;
                         }
                     }
+                    // No layout here. What the layout parser consumed before
+                    // it failed is not skipped.
+                    context.set_position(current_position);
                 }
                 // At this point we can't recognize any new token at the current position.
                 // This can be Ok if partial parse is configured and STOP is expected.
